@@ -50,7 +50,7 @@ RULE = ("a case is one operation (or one law instance) on one array; distinct no
         "axes pattern, parity pattern / divisibility pattern, reducer or up/down direction) with at least 2 elements")
 TRUSTED = ["np.fft.fftn/ifftn compute the defining DFT sums; np.pad / reshape / sum semantics (modelled as gathers and block sums)"]
 ASSUMPTIONS = [
-    "exact stream: integer (or Gaussian-integer) data with |x| <= 9, dyadic calibration, so every float operation of the code is exact and equality is demanded; mean reducer compared exactly when the block volume is a power of two, else to 1e-12 (float64) / 5e-4 (float32)",
+    "exact stream: integer (or Gaussian-integer) data with |x| <= 9 — and, for 40 % of the bin cases, narrow integer dtypes (uint8/int8/uint16/int16/int32/uint32) with values within 20 % of the dtype extremes, checked against an exact Python-integer block-sum oracle —, dyadic calibration, so every float operation of the code is exact and equality is demanded; mean reducer compared exactly when the block volume is a power of two, else to 1e-12 (float64) / 5e-4 (float32)",
     "float stream: tolerance |impl - model| <= 1e-9 * max(1, max|model|) on float64/complex128 data, 5e-4 on float32/complex64 data; law predicates use 1e-9 (5e-4) relative to max(1, max|x|)",
     "'cropping the pad widths' is read as crop(((before, -after), ...)) — the only reading under which Dataset.crop (start, stop) slices undo a pad; `-0` is why the code maps after == 0 to None",
     "round trip: 'no Nyquist-frequency content' is enforced by projecting out bin n/2 along every resampled even axis; up-sampling means m >= n on every resampled axis",
@@ -93,6 +93,28 @@ def make_ds(new):
     return cls.from_array(a, origin=ndinfo_py(new["origin"]), sampling=ndinfo_py(new["sampling"]), units=list(new["units"]["l"]))
 
 
+NARROW = {"uint8": (0, 255), "int8": (-128, 127), "uint16": (0, 65535), "int16": (-32768, 32767),
+          "int32": (-2 ** 31, 2 ** 31 - 1), "uint32": (0, 2 ** 32 - 1)}
+
+
+def gen_extreme_array(rng, shape, dtype):
+    """narrow integer data near the dtype extremes (block sums overflow the *input* dtype; NumPy's default np.sum
+    accumulates small integers in the platform integer, which is what the code relies on)"""
+    lo, hi = NARROW[dtype]
+    span = max(1, (hi - lo) // 5)
+    n = int(np.prod(shape))
+    mode = rng.below(3)
+    vals = []
+    for _ in range(n):
+        if mode == 0 or lo == 0:
+            vals.append(hi - rng.below(span))                # all near the maximum (e.g. uint16 ~ 52000..65535, uint8 ~ 205..255)
+        elif mode == 1:
+            vals.append(lo + rng.below(span))                # all near the minimum of a signed dtype
+        else:
+            vals.append(hi - rng.below(span) if rng.chance(0.5) else lo + rng.below(span))
+    return np.array(vals, dtype=np.int64).reshape(shape).astype(dtype)
+
+
 def gen_exact_case(rng):
     ndim = rng.weighted([(1, 3), (2, 4), (3, 3), (4, 2)])
     shape = gen_shape(rng, ndim, cap=400)
@@ -106,6 +128,12 @@ def gen_exact_case(rng):
     cls = "Dataset" if rng.chance(0.6) or ndim == 1 else {2: "Dataset2d", 3: "Dataset3d", 4: rng.choice(["Dataset4d", "Dataset4dstem"])}[ndim]
     new = {"op": "new", "cls": cls, "array": arr_json(a), "dtype": dtype, "origin": o, "sampling": s, "units": u}
     kind = rng.weighted([("bin", 5), ("padcrop", 3), ("pad", 1), ("crop", 1)])
+    if kind == "bin" and rng.chance(0.4):
+        dtype = rng.choice(sorted(NARROW))
+        a = gen_extreme_array(rng, shape, dtype)
+        new["array"] = arr_json(a)
+        new["dtype"] = dtype
+        new["extreme"] = True
     if kind == "bin":
         axes = gen_axes_subset(rng, ndim)
         axl = axes_list(axes, ndim)
@@ -193,7 +221,7 @@ def check_exact_case(ctx, drv, case):
     ctx.count()
     ctx.dist[f"exact:{kind}"] += 1
     ctx.dist[f"exact:ndim{ndim}"] += 1
-    ctx.dist["exact:dtype:" + new["dtype"]] += 1
+    ctx.dist["exact:dtype:" + new["dtype"] + (":extreme" if new.get("extreme") else "")] += 1
     parity = "".join("e" if n % 2 == 0 else "o" for n in shape)
     if a0.size >= 2:
         sig_axes = "all" if op.get("axes") is None else ("neg" if any(a < 0 for a in axes_list(op.get("axes"), ndim)) else "sub")
@@ -253,10 +281,12 @@ def check_exact_case(ctx, drv, case):
                 ctx.stat_max("bin_mean_rel_error", float(dmax / scale))
             if not op.get("mean"):
                 cov = a0[tuple(slice(0, (n // f) * f) for n, f in zip(shape, facs))]
-                tot_in = complex(np.sum(cov.astype(np.complex128))) if a0.size else 0
-                tot_out = complex(np.sum(res.array.astype(np.complex128))) if res.array.size else 0
+                ci, co = exact_frac_array(cov), got                       # exact Python integers / Fractions, no float or dtype arithmetic
+                tot_in = (sum(x for x, _ in ci), sum(y for _, y in ci))
+                tot_out = (sum(x for x, _ in co), sum(y for _, y in co))
                 if tot_in != tot_out:
-                    ctx.pred_fail("bin-counts", "sum over the covered region is not preserved", case, observed=str(tot_out), required=str(tot_in))
+                    ctx.pred_fail("bin-counts", "sum over the covered region is not preserved", case,
+                                  observed=[str(v) for v in tot_out], required=[str(v) for v in tot_in])
         ro = [fr(float(x)) for x in res.origin]
         rs = [fr(float(x)) for x in res.sampling]
         req_s = [s0[k] * facs[k] for k in range(ndim)]
